@@ -1,7 +1,7 @@
 """C10 - Dilation delivers every record exactly once, in order, across reconnects."""
 from ..env import World
 from ..sched import Scheduler
-from ..dilation_work import DilatedPair, ScriptDriver, stream_check
+from ..dilation_work import RecFactory, DilatedPair, ScriptDriver, stream_check
 from ..mailbox_work import trace_digest
 from ..monitors import MON
 
@@ -120,6 +120,19 @@ def run_case(spec):
             world.reactor.blackhole(link, direction=(d if how == "lose-data" else 1 - d))
             sch.faults.append((world.step + rng.randint(3, 30), lambda: world.reactor.cut(link), "cut after blackhole"))
             sch.faults.sort(key=lambda f: f[0])
+    bad_name = {"tried": 0, "outcome": None}
+    if spec["kind"] == "random" and spec["seed"] % 5 == 0:
+        # an application bug on one side: connect() with a subprotocol name that is a str but cannot be encoded (a lone
+        # surrogate). It must be refused - and must not cost the other subchannels anything, now or after a reconnect
+        def try_bad_name():
+            bad_name["tried"] = 1
+            side = rng.choice("AB")
+            try:
+                d_ = dp.dilate(side).connector_for("caf\udce9").connect(RecFactory(dp, "%s.open[bad]" % side))
+                d_.addCallbacks(lambda p: bad_name.__setitem__("outcome", "connected"), lambda f: bad_name.__setitem__("outcome", f.type.__name__))
+            except Exception as e:
+                bad_name["outcome"] = type(e).__name__
+        sch.faults.append((rng.randint(60, 300), try_bad_name, "connect with an unencodable name"))
     if twins:
         pass
     elif spec["kind"] == "random":
@@ -188,7 +201,7 @@ def run_case(spec):
     viol = []
     counters = {"kills": kills["done"], "kills_skipped": kills["skipped"], "opens": len(drv.opens),
                 "writes_delivered": 0, "complete": int(complete), "bystander_pairs": int(by is not None), "twin_cases": int(twins),
-                "app_pauses": drv.pauses_done, "false_factories": drv.falsy_factories, "calls_from_inside_protocol_callbacks": drv.reactions_done, "app_resumes_while_offline": drv.resumes_offline}
+                "app_pauses": drv.pauses_done, "unencodable_names_tried": bad_name["tried"], "false_factories": drv.falsy_factories, "calls_from_inside_protocol_callbacks": drv.reactions_done, "app_resumes_while_offline": drv.resumes_offline}
 
     def wit(extra=None):
         w = {"spec": spec, "roles": {n: str(dp.role(n)) for n in "AB"}, "states": {n: dp.mstate(n) for n in "AB"},
